@@ -192,7 +192,32 @@ def rule_z6(ctx) -> None:
             ctx.finding("C18-Z6", "Validator.check:label-condition:extra", vc.loc(st), "the validator labels a row solved only if additionally %s holds, a test balanced_cnt (computed in the rule-based stage from the comparator and carbon labels alone) does not apply: rows are counted as balanced but not labelled input-balanced" % extra)
 
 
+def rule_z8(ctx, pl) -> None:
+    """mcs_applied counts the rows that carry the MCS key (Z3).  It equals the number of rows the first two stages left
+    unsolved only if the MCS search gives the key to *every* row that is unsolved when it starts: the store
+    `row[mcs] = None` sits under `not row[solved]` and under nothing else."""
+    ctx.rule("C18-Z8", "the MCS search marks every row that is unsolved at its start (the key that mcs_applied counts)", 1)
+    solved = pl.solved_col.text
+    mcs = texts(ctx.balancer.get("__mcs_data_col"))
+    n = 0
+    for st in pl.stages:
+        if st.attr != "mcs_search":
+            continue
+        for s_ in st.stores:
+            if not (s_.keytexts & mcs and isinstance(s_.value, ast.Constant) and s_.value.value is None):
+                continue
+            n += 1
+            others = [a for a in s_.atoms if not (a.kind == "truth" and a.op == "not" and solved in set(map(str, a.keys)))]
+            under_unsolved = any(a.kind == "truth" and a.op == "not" and solved in set(map(str, a.keys)) for a in s_.atoms)
+            ok = under_unsolved and not others
+            ctx.instance("C18-Z8", "MCSSearch.find marks rows under %s" % [repr(a) for a in s_.atoms], s_.where(), ok=ok)
+            if not ok:
+                ctx.finding("C18-Z8", "mcs_search.MCSSearch.find:mark-not-every-unsolved-row", s_.where(), "the MCS key is given under %s, not under `not solved` alone: unsolved rows without the key are not counted in mcs_applied, which then differs from the number of rows not solved before the MCS stage" % [repr(a) for a in s_.atoms])
+    ctx.require(n >= 1, "MCSSearch.find no longer stores None under the MCS key")
+
+
 def check(ctx) -> None:
+    rule_z8(ctx, Pipeline(ctx))
     rule_z5(ctx)
     rule_z6(ctx)
     # Z7: the stages count the rows that are returned: no row is removed from (or folded into another row of) the batch
